@@ -619,7 +619,7 @@ var rtypes = []string{"buckets", "orgs", "users", "authorizations", "tasks", "in
 func gen(r *h.Rand, tier string, emit func([]string)) {
 	ncases, nops := 1200, 40
 	if tier == "thorough" {
-		ncases, nops = 15000, 60
+		ncases, nops = 6000, 60
 	}
 	names := []string{"a", "b", "c", "x", "y", "_z", "a "}
 	for c := 0; c < ncases; c++ {
